@@ -40,9 +40,34 @@ ConstProj(s) == \/ (s.k = "sub" /\ s.a[2].k \in {"int", "str"})
 LeftoverProj(in, out) ==
     LET lost == FVars(out) \ FVars(in) IN
     \E s \in SubTerms(out) : (ConstProj(s) \/ s.k = "attr") /\ s.a[1].k = "name" /\ s.a[1].s \in lost
+(* The package skeleton of the VALUE an expression produces: literals keep their structure, a constant projection *)
+(* of a literal / of the first element of a sequence whose elements are built by a literal selects the component,  *)
+(* sequence operators stand for their elements.  What is left counts the packaging that is "part of the final      *)
+(* result"; a package that a projection throws away is not.  (Names never denote packages in the generated space; *)
+(* unknown calls keep everything inside them: an upper bound.)                                                    *)
+RECURSIVE ResTerm(_)
+ResTerm(e) ==
+    CASE e.k \in {"tuple", "list"} -> [e EXCEPT !.a = [i \in 1..Len(e.a) |-> ResTerm(e.a[i])]]
+      [] e.k = "dict" -> [e EXCEPT !.a = [i \in 1..Len(e.a) |-> IF i % 2 = 0 THEN ResTerm(e.a[i]) ELSE e.a[i]]]
+      [] e.k = "sub" ->
+           LET v == ResTerm(e.a[1])  ix == e.a[2] IN
+           IF v.k \in {"tuple", "list"} /\ ix.k = "int" /\ PyIndex(Len(v.a), ix.n) # 0 THEN v.a[PyIndex(Len(v.a), ix.n)]
+           ELSE IF v.k = "dict" /\ ix.k \in {"str", "int"} /\ \E i \in 1..(Len(v.a) \div 2) : v.a[2 * i - 1] = ix
+                THEN v.a[2 * (CHOOSE i \in 1..(Len(v.a) \div 2) : v.a[2 * i - 1] = ix)]
+           ELSE [e EXCEPT !.a = <<v, ix>>]
+      [] e.k = "attr" ->
+           LET v == ResTerm(e.a[1]) IN
+           IF v.k = "dict" /\ \E i \in 1..(Len(v.a) \div 2) : v.a[2 * i - 1] = StrC(e.s)
+           THEN v.a[2 * (CHOOSE i \in 1..(Len(v.a) \div 2) : v.a[2 * i - 1] = StrC(e.s))]
+           ELSE [e EXCEPT !.a = <<v>>]
+      [] e.k = "call" /\ e.a[1].k = "name" /\ e.a[1].s \in {"Select", "Where", "SelectMany"} /\ e.n = 2 ->
+           ResTerm(ResultExpr(e))
+      [] e.k = "call" /\ e.a[1].k = "name" /\ e.a[1].s = "First" /\ e.n = 1 -> ResTerm(ResultExpr(e.a[2]))
+      [] e.k = "ifexp" -> [e EXCEPT !.a = <<e.a[1], ResTerm(e.a[2]), ResTerm(e.a[3])>>]
+      [] OTHER -> e
 ShapeOK(in, out) ==
     ~OnlyTakenApart(in) \/
-    /\ CountKinds(out, Packaging) <= CountKinds(ResultExpr(in), Packaging)
+    /\ CountKinds(out, Packaging) <= CountKinds(ResTerm(ResultExpr(in)), Packaging)
     /\ \A s \in SubTerms(out) : ~(ConstProj(s) /\ s.a[1].k \in Packaging)
     /\ ~LeftoverProj(in, out)
 
